@@ -25,6 +25,11 @@ func (b *vBody) Read(p []byte) (int, error) {
 }
 func (b *vBody) Close() error { return nil }
 
+// verifGetBodyMaker: what net/http.NewRequest installs as Request.GetBody for an in-memory body
+func verifGetBodyMaker(b []byte) func() (io.ReadCloser, error) {
+	return func() (io.ReadCloser, error) { return &vBody{append([]byte{}, b...)}, nil }
+}
+
 var v9N int
 var v9Signal bool // the transport produced a failure signal
 var v9Calls int
@@ -34,6 +39,7 @@ func verifDo(req *http.Request) (*http.Response, error) {
 		return verifDoUpload(req)
 	}
 	v9Calls++
+	verifAssert(v9Calls == 1, "a batch is posted exactly once, whatever the answer")
 	var ins []*requests.Request
 	if err := json.Unmarshal(verifRequestBody(req), &ins); err != nil {
 		verifAssert(false, "the HTTP body is a JSON array of requests")
@@ -133,6 +139,13 @@ func VerifDownstreamAnswers() {
 		inputs[i] = &requests.Request{Query: v9Tags[i]}
 	}
 	res, err := q.Query(inputs)
+	// one Query call of up to maxBatchSize operations is one HTTP request, whatever the answer: the
+	// service may have executed what it then failed to answer (C06: never duplicated by a failure)
+	if n == 0 {
+		verifAssert(v9Calls <= 1, "an empty batch is posted at most once")
+	} else {
+		verifAssert(v9Calls == 1, "a batch is posted exactly once, whatever the answer")
+	}
 	if v9Signal {
 		verifAssert(err != nil, "a failure signal from the service is reported as an error")
 		verifReach("failure signal")
